@@ -109,4 +109,58 @@ func init() {
 		}
 		return "ok"
 	})
+
+	// c12.keyrange: a `range` on the KEY of a struct-valued map, vertical (one entry per row) or horizontal (one entry
+	// per column group): every key must lie inside it.   c12.keyrange <v|h> <lo> <hi> <keys joined by .>  → ok | err <code>
+	regStream("e2e.C12.keyRange", func(r *rand.Rand, n int, emit func(string, ...string)) {
+		for i := 0; i < n; i++ {
+			lo, hi := 1+r.Intn(3), []int{5, 10, 100}[r.Intn(3)]
+			var keys []string
+			seen := map[int]bool{}
+			for j, cnt := 0, 1+r.Intn(3); j < cnt; j++ {
+				k := []int{lo, hi, lo + r.Intn(hi-lo+1), hi + 1, hi + 7, lo + 1}[r.Intn(6)]
+				if seen[k] {
+					continue
+				}
+				seen[k] = true
+				keys = append(keys, strconv.Itoa(k))
+			}
+			emit("c12.keyrange", []string{"v", "h"}[i%2], strconv.Itoa(lo), strconv.Itoa(hi), strings.Join(keys, "."))
+		}
+	})
+	regImpl("c12.keyrange", func(a []string) string {
+		keys := strings.Split(a[3], ".")
+		prop := "|{range:\"" + a[1] + "," + a[2] + "\"}"
+		var rows [][]string
+		if a[0] == "v" {
+			rows = [][]string{{"ID", "Name"}, {"map<uint32, Item>" + prop, "string"}, {"id", "name"}}
+			for _, k := range keys {
+				rows = append(rows, []string{k, "n" + k})
+			}
+		} else {
+			names, types, notes, data := []string{"ID"}, []string{"map<uint32, Hero>"}, []string{"id"}, []string{"1"}
+			for e := 1; e <= len(keys); e++ {
+				t1 := "uint32"
+				if e == 1 {
+					t1 = "map<uint32, Item>" + prop
+				}
+				names = append(names, "Item"+strconv.Itoa(e)+"ID", "Item"+strconv.Itoa(e)+"Name")
+				types = append(types, t1, "string")
+				notes = append(notes, "i", "n")
+				data = append(data, keys[e-1], "n"+keys[e-1])
+			}
+			rows = [][]string{names, types, notes, data}
+		}
+		w := newWorkspace()
+		defer w.cleanup()
+		w.writeCSVBook("", bookSpec{Name: "Book", Sheets: []sheetSpec{{Name: "KeyConf", Rows: rows}}})
+		ro := runOpts{}
+		if err := w.genProto(ro); err != nil {
+			return "protoerr " + errCode(err)
+		}
+		if err := w.genConf(ro); err != nil {
+			return "err " + errCode(err)
+		}
+		return "ok"
+	})
 }
